@@ -444,6 +444,52 @@ fn remove_case(s: Shape, at: usize) {
     check_leaf_against(&page, &ms, &mk, &mv, old_total - delta);
 }
 
+/// remove_indices(&[..]) (the in-place multi-entry removal behind retain/extract): `mask` bit i
+/// set = pair i is removed
+fn remove_indices_case(s: Shape, mask: u8) {
+    let keys = any_cells();
+    let vals = any_cells();
+    let mut page: [u8; PG] = kani::any();
+    let old_total = build_leaf(&mut page, &s, &keys, &vals);
+    {
+        let mut m = LeafMutator::new(&mut page[..], s.fk, s.fv);
+        match mask {
+            0b001 => m.remove_indices(&[0]),
+            0b010 => m.remove_indices(&[1]),
+            0b100 => m.remove_indices(&[2]),
+            0b011 => m.remove_indices(&[0, 1]),
+            0b101 => m.remove_indices(&[0, 2]),
+            _ => m.remove_indices(&[1, 2]),
+        }
+    }
+    let mut ms = Shape { n: 0, kl: [0; 4], vl: [0; 4], fk: s.fk, fv: s.fv };
+    let mut mk: Cells = [0; KMAX * 4];
+    let mut mv: Cells = [0; KMAX * 4];
+    let mut removed_bytes = 0;
+    let mut j = 0;
+    while j < 4 {
+        if j < s.n {
+            if mask & (1 << j) == 0 {
+                ms.kl[ms.n] = s.kl[j];
+                ms.vl[ms.n] = s.vl[j];
+                copy_cell(&mut mk, ms.n, &keys, j);
+                copy_cell(&mut mv, ms.n, &vals, j);
+                ms.n += 1;
+            } else {
+                removed_bytes += s.kl[j] + s.vl[j];
+                if s.fk.is_none() {
+                    removed_bytes += 4;
+                }
+                if s.fv.is_none() {
+                    removed_bytes += 4;
+                }
+            }
+        }
+        j += 1;
+    }
+    check_leaf_against(&page, &ms, &mk, &mv, old_total - removed_bytes);
+}
+
 fn replace_case(s: Shape, at: usize, nvl: usize) {
     let keys = any_cells();
     let vals = any_cells();
@@ -537,6 +583,21 @@ leaf_op_harness!(c04_leaf_replace_vv_at2_len2, { replace_case(VV, 2, 2); });
 leaf_op_harness!(c04_leaf_replace_fv_at0_len2, { replace_case(FV_, 0, 2); });
 leaf_op_harness!(c04_leaf_replace_fv_at1_len3, { replace_case(FV_, 1, 3); });
 leaf_op_harness!(c04_leaf_replace_fv_at2_len0, { replace_case(FV_, 2, 0); });
+
+// @harness props=C04,C10 tier=quick timeout=1500 mem=12 stubbing=1 replay=native
+// @desc LeafMutator::remove_indices (in-place removal of several pairs, used by retain / extract_if) of the named index set from a 3-pair leaf equals the list model - the surviving pairs keep their keys AND values, in order - and the page stays well-formed for the independent decoder (offsets, count, total length)
+// @functions LeafMutator::{new,remove_indices,remove_index_ranges,update_removed_indices,compact_before_hole,compact_tail,update_key_end,update_value_end}, LeafAccessor::*
+// @bound 64-byte page; shapes VV (variable key/value), FV_ (fixed 2-byte key), VF (fixed 2-byte value) with 3 pairs and key lengths different from value lengths; index sets {0},{1},{0,1},{0,2},{1,2} as named; all bytes arbitrary
+// @stubs crate::panicking -> false; alloc::fmt::format -> empty
+leaf_op_harness!(c04_leaf_remove_indices_vv_0, { remove_indices_case(VV, 0b001); });
+leaf_op_harness!(c04_leaf_remove_indices_vv_1, { remove_indices_case(VV, 0b010); });
+leaf_op_harness!(c04_leaf_remove_indices_vv_01, { remove_indices_case(VV, 0b011); });
+leaf_op_harness!(c04_leaf_remove_indices_vv_02, { remove_indices_case(VV, 0b101); });
+leaf_op_harness!(c04_leaf_remove_indices_vv_12, { remove_indices_case(VV, 0b110); });
+leaf_op_harness!(c04_leaf_remove_indices_fv_0, { remove_indices_case(FV_, 0b001); });
+leaf_op_harness!(c04_leaf_remove_indices_fv_02, { remove_indices_case(FV_, 0b101); });
+leaf_op_harness!(c04_leaf_remove_indices_vf_1, { remove_indices_case(VF, 0b010); });
+leaf_op_harness!(c04_leaf_remove_indices_vf_01, { remove_indices_case(VF, 0b011); });
 
 // ---- branch pages -------------------------------------------------------------------------------
 // docs/design.md "Branch page": type(1)=2 | pad(1) | num_keys(2) | pad(4) | checksums 16 x (n+1)
